@@ -1214,20 +1214,30 @@ def gen_cases(ctx: Ctx, per_op_mut: int, ops_limit: int | None):
     rng = ctx.rng
     names = [n for n in covered if n in inst]
     if ops_limit is not None and len(names) > ops_limit:
-        names = sorted(rng.sample(names, ops_limit))
+        # operations with a rare feature are always in the sample
+        rare = [n for n in names if "unit-attr" in covered[n].features or n in NOT_SHOWN_HINT]
+        rest = [n for n in names if n not in rare]
+        names = sorted(rare + rng.sample(rest, max(0, ops_limit - len(rare))))
     cases = []
     for n in names:
         info = covered[n]
         locs = inst[n]
-        base = [locs[0]] + ([rng.choice(locs)] if len(locs) > 1 else [])
         fol = ["end"] if info.terminator else FOLLOWERS      # a terminator is the last operation of its block
+        base = [locs[0]] + ([rng.choice(locs)] if len(locs) > 1 else [])
         for at in dict.fromkeys(base):
             cases.append({"op": n, "at": list(at), "mut": [], "follower": rng.choice(fol)})
         menu = mutation_menu(info)
         rng.shuffle(menu)
-        for mut in menu[:per_op_mut]:
+        # the mutations that exercise optional groups / unit and default-valued properties come first
+        prio = [m for m in menu if m[0][0] == "prop" and m[0][2] in ("unit", "default")]
+        prio += [m for m in menu if m[0][0] in ("oper", "res") and m[0][2] in (0, 1)][:2]
+        others = [m for m in menu if m not in prio]
+        for mut in (prio + others)[:max(per_op_mut, min(len(prio), per_op_mut + 2))]:
             cases.append({"op": n, "at": list(rng.choice(locs)), "mut": mut, "follower": rng.choice(fol)})
     return cases, [n for n in covered if n not in inst]
+
+
+NOT_SHOWN_HINT = {"csl.activate", "irdl.region", "pdl.replace", "seq.compreg", "shard.shift", "smt.declare_fun"}
 
 
 def shape_key(case, real):
@@ -1663,7 +1673,7 @@ def run(ctx: Ctx):
     replay_findings(ctx, "generated-instances", generated_impl, generated_holds)
     replay_findings(ctx, "corpus-chunks", corpus_impl, corpus_holds)
     # family A
-    cases, noinst = gen_cases(ctx, 4 if thorough else 2, None if thorough else 260)
+    cases, noinst = gen_cases(ctx, 5 if thorough else 2, None if thorough else 200)
     cases = [dict(c) for c in SEED_CASES] + cases
     family_generated(ctx, cases)
     ctx.coverage["covered_ops_without_corpus_instance"] = noinst
